@@ -7,6 +7,7 @@ mod rng;
 mod sx;
 mod c01;
 mod c02;
+mod c05;
 mod c07;
 mod gen_schema;
 mod sx_schema;
@@ -53,6 +54,7 @@ fn main() {
             match stream.as_str() {
                 "c01" => c01::run(&args, &mut out),
                 "c02" => c02::run(&args, &mut out),
+                "c05" => c05::run(&args, &mut out),
                 "c07" => c07::run(&args, &mut out),
                 "c11" => c11::run(&args, &mut out),
                 "c04" => c04::run(&args, &mut out),
